@@ -18,15 +18,22 @@ from vlib import sqlo
 
 PROP = 'C01'
 META = {
-    'extractors': ['codec'],
+    'extractors': ['codec', 'pycodec'],
     'technique': ('Lean 4 proofs over an executable model of validator pairs + sqlite literal rendering + SQLite literal '
                   'evaluation/affinity + driver fetch; format strings, literals, column types extracted from /repo; '
-                  'differential correspondence and an independent read-back oracle on in-memory SQLite'),
+                  'differential correspondence and an independent read-back oracle on in-memory SQLite; '
+                  'TRANSLATOR tie: the Python AST of the Int/Bool/String/Unicode/Enum/ForeignKey/DateTime/Date/Time/Decimal/'
+                  'Binary validator methods and of the createValidators lists is translated on every run into a deep '
+                  'embedding (Model/PyCodec.lean) and proved equal to the model functions for ALL values of the universe'),
     'level_text': ('Theorems C01_roundtrip_<T>: for ALL values of the domain (all NUL-free code point lists, all int64, '
                    'all valid y/m/d/H/M/S/us, every declared enum value, all byte lists) toPy(fetch(store(aff T, lit(toDb v)))) = v, '
                    'about the extracted format strings / literals / column types; C01_eq_query_finds; '
                    'C01_accepted_readable (_partial proved, _full_FALSE from the FloatCol<-2**53+1 witness); glue theorems '
-                   'for Float/Decimal/DecimalString/Pickle/JSON/Uuid.'),
+                   'for Float/Decimal/DecimalString/Pickle/JSON/Uuid.  C01_translated_<Validator>_<method>_eq_model: the translated '
+                   'source of 15 validator methods = the model function on every universe value; '
+                   'C01_translated_createValidators_chain_eq_model: col.from_python / col.to_python = toDb / toPy for the kinds whose '
+                   'validators are all translated; C01_translated_roundtrip_* and C01_translated_accepted_readable_partial restate the '
+                   'round trips about the translated source.'),
     'level_note': ('partial for Float, Decimal, Currency, DecimalString, Pickle, JSON, Uuid: repr(float), Decimal, pickle, json, '
                    'UUID are uninterpreted tokens; only the glue is proved, end-to-end behaviour is covered by the '
                    'differential run and the oracle (sampling).'),
@@ -45,7 +52,13 @@ META = {
                  'sqlite3 driver (text_factory=str), SQLite engine',
                  'mysql/postgres/other backends: not covered (no server); sqlite only',
                  'write paths / cacheValues / lazy plumbing of main.py: exercised by the oracle only (OrmCore is another property)'],
-    'assumptions': ['a float token denotes one double: SQLite parses repr(f) back to f', 'Decimal(d.to_eng_string()) == d, UUID(str(u)) == u, '
+    'assumptions': ['translated validators: the interface listed in the header of Model/CodecX.lean (validator/state/connection '
+                    'attributes, class and hasattr tables of the universe tags, int()/str()/bool()/Decimal() on the interpreted '
+                    'values, strptime = the model parser on the parsed format text, base64 = the model functions, float and Decimal '
+                    'arithmetic uninterpreted) and formencode compound.All order (Model/CodecXChain.lean); raise messages are not evaluated; '
+                    'Float/DecimalString/Pickle/Uuid/JSON validators and SQLObject._SO_selectInit are translated or listed but not proved '
+                    '(hand model + correspondence streams)',
+                    'a float token denotes one double: SQLite parses repr(f) back to f', 'Decimal(d.to_eng_string()) == d, UUID(str(u)) == u, '
                     'json.loads(json.dumps(v)) == v, pickle.loads(pickle.dumps(v)) == v on the generated values',
                     'strings are NUL-free and have no lone surrogates (the driver refuses both)'],
     'exhaustive': False,
